@@ -51,11 +51,12 @@ GUnsub == \E o \in Obs :
     /\ Unsubscribe(o)
     /\ hist' = Append(hist, [a |-> "Unsub", o |-> o])
 GNotify == Notify /\ UNCHANGED hist
+GBegin == Begin /\ UNCHANGED hist
 GFinish == Idle /\ done' = TRUE /\ UNCHANGED <<vars, hist>>
 
 GNext ==
     /\ ~done
-    /\ \/ (GDispatch \/ GReject \/ GRejectNone \/ GReset \/ GQuery \/ GCreate \/ GUnsub \/ GNotify) /\ UNCHANGED done
+    /\ \/ (GDispatch \/ GReject \/ GRejectNone \/ GReset \/ GQuery \/ GCreate \/ GUnsub \/ GNotify \/ GBegin) /\ UNCHANGED done
        \/ (GFinish /\ (Mode = "prefixes" \/ Complete(inst, sched)))
 GSpec == GInit /\ [][GNext]_gvars
 
